@@ -9,6 +9,7 @@ reading under which the exhaustive comparison of DESIGN §2 is exact.
 import TzVerif.Model.Rule
 import TzVerif.Spec.Rule
 import TzVerif.Proofs.Consist
+import TzVerif.Proofs.SrcEqRule
 
 namespace TzVerif.C11
 open TzVerif.Model TzVerif.Proofs
@@ -56,5 +57,26 @@ example :
     (AlternateTime.new std dst (.mwd 3 2 0) 7200 (.mwd 11 1 0) 7200).isOk = true ∧
     AlternateTime.new std dst (.julian1 60) 0 (.julian0 59) 7200 = .error .inconsistentRule := by
   decide +kernel
+
+/-! ### The same about the source text
+`TzVerif.Src.*` is the Rust source translated to Lean on every run (tools/rs2lean.py, DESIGN §13); the
+equalities below tie every theorem of this file, which is about the model, to the code as it is now. -/
+
+theorem translated_source_is_the_model :
+    (∀ std dst ds st de et, Src.AlternateTime.new std dst ds st de et = AlternateTime.new std dst ds st de et) ∧
+    (∀ std dst ds st de et, Src.check_dst_transition_rules_consistency std dst ds st de et = checkDstTransitionRulesConsistency std dst ds st de et) ∧
+    (∀ m1 w1 wd1 t1 m2 w2 wd2 t2,
+      Src.check_two_month_week_days { month := m1, week := w1, weekDay := wd1 } t1 { month := m2, week := w2, weekDay := wd2 } t2
+        = checkTwoMonthWeekDays m1 w1 wd1 t1 m2 w2 wd2 t2) ∧
+    (∀ a b, Src.check_two_julian_days a b = checkTwoJulianDays (SrcEq.jInfo a) (SrcEq.jInfo b)) ∧
+    (∀ a b, Src.check_month_week_day_and_julian_day a b = checkMonthWeekDayAndJulianDay (SrcEq.mInfo a) (SrcEq.jInfo b)) :=
+  ⟨SrcEq.alternate_new_eq, SrcEq.check_dst_transition_rules_consistency_eq, SrcEq.check_two_month_week_days_eq,
+   SrcEq.check_two_julian_days_eq, SrcEq.check_month_week_day_and_julian_day_eq⟩
+
+/-- `no_order_flip` about the translated constructor -/
+theorem no_order_flip_src (std dst : LocalTimeType) (ds : RuleDay) (st : Int) (de : RuleDay) (et : Int) (a : AlternateTime)
+    (hds : ValidRuleDay ds) (hde : ValidRuleDay de) (h : Src.AlternateTime.new std dst ds st de et = .ok a) :
+    (∀ y, Spec.startInstant a y ≤ Spec.endInstant a y) ∨ (∀ y, Spec.endInstant a y ≤ Spec.startInstant a y) :=
+  no_order_flip std dst ds st de et a hds hde (SrcEq.alternate_new_eq std dst ds st de et ▸ h)
 
 end TzVerif.C11
